@@ -362,7 +362,11 @@ fn indent(rng: &mut Rng) -> String {
     }
 }
 
-const COMMENTS: [&str; 10] = [
+const COMMENTS: [&str; 14] = [
+    "# exported from C:\\models\\cube\\",
+    "#\\",
+    "# line \\ continued? \\",
+    "# a\\b",
     "#",
     "# comment",
     "#comment",
